@@ -48,7 +48,7 @@ class Obl:
     goal: Any = None
     kind: str = 'vc'
     meta: Dict[str, Any] = field(default_factory=dict)
-    # optional: turn a counter-model into a concrete, JSON-able witness (run in the same process)
+    # optional: turn a counter-model into a concrete, JSON-able witness; receives ev(term) -> value term
     extract: Optional[Callable[[Any], Dict[str, Any]]] = None
 
 
@@ -107,37 +107,106 @@ def _cvc5_check(smt2: str, want_model: bool = False) -> str:
         os.unlink(path)
 
 
-def discharge(obl: Obl, timeout_ms: Optional[int] = None) -> OblResult:
+COVER_TIMEOUT_MS = int(os.environ.get('VERIF_COVER_TIMEOUT_MS', '2500'))
+
+
+def _has_quantifier(e: Any) -> bool:
+    seen = set()
+    stack = [e]
+    while stack:
+        x = stack.pop()
+        if x.get_id() in seen:
+            continue
+        seen.add(x.get_id())
+        if z3.is_quantifier(x):
+            return True
+        stack.extend(x.children())
+    return False
+
+
+def _discharge_cover(obl: Obl) -> OblResult:
+    """vacuity guards.  Satisfiability of quantified hypotheses is often out of reach of the solvers
+    (they answer `unknown`); then the ground part alone is checked: `unsat` there is a definite
+    'uncovered'; `sat` there is reported as covered by backend 'z3-ground(quantified hyps not refuted)'."""
     t0 = time.time()
     s = z3.Solver()
-    s.set('timeout', timeout_ms or Z3_TIMEOUT_MS)
-    for h in obl.hyps:
-        s.add(h)
-    if obl.kind == 'vc':
-        s.add(z3.Not(obl.goal))
+    s.set('timeout', COVER_TIMEOUT_MS)
+    s.add(*obl.hyps)
     r = s.check()
     backend = 'z3'
     if r == z3.unknown:
-        r2 = _cvc5_check(s.to_smt2().replace('(check-sat)', ''))
-        if r2 in ('sat', 'unsat'):
-            backend = 'cvc5'
-            r = z3.sat if r2 == 'sat' else z3.unsat
+        g = z3.Solver()
+        g.set('timeout', COVER_TIMEOUT_MS)
+        g.add(*[h for h in obl.hyps if not _has_quantifier(h)])
+        r = g.check()
+        backend = 'z3-ground(quantified hyps not refuted)'
+    dt = time.time() - t0
+    if r == z3.sat:
+        return OblResult(obl.name, obl.kind, 'covered', backend, dt, meta=obl.meta)
+    if r == z3.unsat:
+        return OblResult(obl.name, obl.kind, 'uncovered', backend, dt, meta=obl.meta)
+    return OblResult(obl.name, obl.kind, 'unknown', backend, dt, detail='cover undecided', meta=obl.meta)
+
+
+def _solve_portfolio(assertions: List[Any], timeout_ms: int):
+    """Solver verdicts on quantified VCs are unstable (the same query flips between 0.3 s and a
+    timeout depending on the solver's internal state), so a query is tried in fresh contexts under a
+    few configurations, then by cvc5.  Any sat/unsat answer is definitive; all-unknown is unknown.
+    returns (result, backend, solver_or_None, reason)"""
+    configs = [
+        ('z3', {}),
+        ('z3(ematching)', {'smt.mbqi': False, 'smt.auto_config': False}),
+        ('z3(seed7)', {'smt.random_seed': 7}),
+    ]
+    share = max(2000, timeout_ms // 3)
+    reason = ''
+    quantified = any(_has_quantifier(a) for a in assertions)
+    for i, (name, opts) in enumerate(configs):
+        if i and not quantified:
+            break
+        ctx = z3.Context()
+        s = z3.Solver(ctx=ctx)
+        s.set('timeout', share if quantified else timeout_ms)
+        for k, v in opts.items():
+            s.set(k, v)
+        for a in assertions:
+            s.add(a.translate(ctx))
+        r = s.check()
+        if r != z3.unknown:
+            return (r, name, s, '')
+        reason = s.reason_unknown()
+    s0 = z3.Solver()
+    s0.add(*assertions)
+    r2 = _cvc5_check(s0.to_smt2().replace('(check-sat)', ''))
+    if r2 == 'sat':
+        return (z3.sat, 'cvc5', None, '')
+    if r2 == 'unsat':
+        return (z3.unsat, 'cvc5', None, '')
+    return (z3.unknown, 'z3+cvc5', None, reason)
+
+
+def discharge(obl: Obl, timeout_ms: Optional[int] = None) -> OblResult:
+    if obl.kind in ('cover', 'canary'):
+        return _discharge_cover(obl)
+    t0 = time.time()
+    r, backend, s, reason = _solve_portfolio(list(obl.hyps) + [z3.Not(obl.goal)], timeout_ms or Z3_TIMEOUT_MS)
     dt = time.time() - t0
     if obl.kind == 'vc':
         if r == z3.unsat:
             return OblResult(obl.name, 'vc', 'proved', backend, dt, meta=obl.meta)
         if r == z3.sat:
             model = None
-            if backend == 'z3':
+            if s is not None:
                 model = _model_to_dict(s.model())
             res = OblResult(obl.name, 'vc', 'failed', backend, dt, model=model, meta=obl.meta)
-            if backend == 'z3' and obl.extract is not None:
+            if s is not None and obl.extract is not None:
                 try:
-                    res.witness = obl.extract(s.model())
+                    mdl = s.model()
+                    res.witness = obl.extract(lambda t, _m=mdl, _c=s.ctx: _m.eval(t.translate(_c), model_completion=True))
                 except Exception as e:  # the witness is a convenience, never a verdict
                     res.detail = f'witness extraction failed: {e!r}'
             return res
-        return OblResult(obl.name, 'vc', 'unknown', backend, dt, detail=s.reason_unknown(), meta=obl.meta)
+        return OblResult(obl.name, 'vc', 'unknown', backend, dt, detail=reason, meta=obl.meta)
     if obl.kind == 'cover':
         if r == z3.sat:
             return OblResult(obl.name, 'cover', 'covered', backend, dt, meta=obl.meta)
@@ -163,6 +232,16 @@ class Violation:
     witness: Dict[str, Any]  # concrete failing input / model / solver output
     replayed: bool  # True when the witness was confirmed against the real code
     key: str = ''  # stable identity used for known-finding matching
+
+
+import re as _re
+
+
+def stable_name(n: str) -> str:
+    """obligation name without path numbers / duplicate counters (they move under harmless edits)"""
+    return _re.sub(r'#\d+$', '', _re.sub(r'path\d+', 'path*', n))
+
+_PATHCOVER = _re.compile(r'[:.]path\d+\.cover$')
 
 
 class Report:
@@ -229,8 +308,20 @@ class Report:
             if r.status == 'unknown':
                 self.undecided.append(f'obligation={r.name} reason=solver-unknown({r.detail})')
             if r.kind in ('cover', 'canary') and r.status == 'uncovered':
-                self.undecided.append(f'obligation={r.name} reason=vacuous({r.kind} unsatisfiable)')
+                # a single dead path is harmless (the executor keeps paths it cannot refute cheaply);
+                # a dead precondition / canary, or a unit whose paths are ALL dead, is vacuity
+                if not _PATHCOVER.search(r.name):
+                    self.undecided.append(f'obligation={r.name} reason=vacuous({r.kind} unsatisfiable)')
+        units: Dict[str, List[str]] = {}
+        for r in self.results:
+            m = _PATHCOVER.search(r.name)
+            if m and r.kind == 'cover':
+                units.setdefault(r.name[: m.start()], []).append(r.status)
+        for u, sts in units.items():
+            if 'covered' not in sts:
+                self.undecided.append(f'obligation={u} reason=vacuous(no path of this unit is reachable)')
         if lock is not None:
+            names = {stable_name(n) for n in names}
             missing = [n for n in lock if n not in names]
             if missing:
                 self.undecided.append(f'obligation={missing[0]} reason=not-generated ({len(missing)} locked obligations missing)')
